@@ -1,6 +1,7 @@
 import S3V.Props.C19
 /-!
-# C19 — kernel-checked witnesses of what is not all-or-nothing (outside the pass/fail gate)
+# C19 — kernel-checked witnesses of what is not all-or-nothing, and regression facts for what was repaired (outside the
+pass/fail gate)
 
 One theorem per finding class of `known_findings.d/fswrite.json`; the class names are position-specific
 (`<what>:<fault kind / position>`), so each open finding covers exactly the fault shown here. Each is replayed on
@@ -9,22 +10,40 @@ the real code by the correspondence run (`corpus/fswrite.txt`).
 namespace S3V.Findings.C19
 open S3V S3V.FsWrite S3V.C19
 
-/-- `tmp-leftover:drop-at-create` (F-fswrite-2): the request future dropped after `File::create(tmp)` was issued
-    and before the `FileWriter` exists (position 1): the temporary file stays -/
-theorem tmp_leftover_drop_at_create :
-    (dropAfter 1 (putObjectProg {}) (initSt none .absent .absent)).tmp = true := by decide
+/-! ## repaired by 2ee4116: `tmp-leftover:drop-at-create` (F-fswrite-2)
 
-/-- … and at NO other position, whatever `done()` does (this is `C19_write_all_or_nothing_partial`); e.g. dropped
-    inside `done()` between `create_dir_all` and the rename: -/
+Before the repair `prepare_file_write` awaited `tokio::fs::File::create(tmp)` (blocking pool) and constructed the `FileWriter`
+only afterwards: a request future dropped in between — the blocking task done or still in flight — left
+`.tmp.<n>.internal.part` behind. Now the file is created in the same poll in which the `FileWriter` is constructed. -/
+
+/-- was `tmp-leftover:drop-at-create`: dropped right after `create` — position 1 for `put_object` and `upload_part`, position
+    `n + 2` for `complete_multipart_upload` of `n` parts (here 3) — no temporary file stays and nothing has changed -/
+theorem no_tmp_leftover_drop_at_create :
+    dropAfter 1 (putObjectProg {}) (initSt none .absent .absent) = initSt none .absent .absent ∧
+    dropAfter 1 (putObjectProg { frames := [.ok [1]], hasMeta := true }) (initSt (some [0]) .old .old) =
+      initSt (some [0]) .old .old ∧
+    dropAfter 1 (uploadPartProg { frames := [.ok [1]] }) (initSt none .absent .absent) = initSt none .absent .absent ∧
+    dropAfter 3 (completeProg { parts := [.present [1] true], hasMeta := true }) (initSt (some [0]) .old .old) =
+      initSt (some [0]) .old .old := by decide
+
+/-- what the defect was, in the model's terms: a temporary file on disk without a `FileWriter` (`owned = false`) survives the
+    clean-up that a dropped future or an error return performs; no step of the current programs produces such a state
+    (`create` sets both at once) -/
+theorem unguarded_tmp_would_stay :
+    (cleanup { initSt none .absent .absent with tmp := true }).tmp = true ∧
+    (exec (initSt none .absent .absent) .create).toOption.map (fun s => (s.tmp, s.owned)) = some (true, true) := by decide
+
+/-- … nor at any other position, whatever `done()` does; e.g. dropped inside `done()` between `create_dir_all` and the
+    rename: -/
 theorem no_tmp_leftover_drop_inside_done :
-    (dropAfter 6 (putObjectProg { frames := [.ok [1]] }) (initSt none .absent .absent)).tmp = false := by decide
+    (dropAfter 5 (putObjectProg { frames := [.ok [1]] }) (initSt none .absent .absent)).tmp = false := by decide
 
-/-- hence the unrestricted statement is false -/
-theorem write_all_or_nothing_full_is_false : ¬ C19_write_all_or_nothing_full := by
-  intro h
-  have := (h {} none .absent .absent 1).1
-  revert this
-  decide
+/-- hence the unrestricted statement, false before the repair (`write_all_or_nothing_full_is_false`), holds: it is
+    `C19_write_all_or_nothing` -/
+theorem write_all_or_nothing_everywhere (c : Cfg) (old : Option Bytes) (m i : Side) (k : Nat) :
+    AllOrNothingAt c old m i k := C19_write_all_or_nothing c old m i k
+
+/-! ## open: the side files lag behind the content -/
 
 /-- `error-after-rename:sidefile-write-fails` (F-fswrite-3): the metadata write fails after the rename:
     `InternalError`, but the content is the new one and the checksum record still the old one -/
@@ -33,12 +52,12 @@ theorem error_after_rename_sidefile_write_fails :
       (.internalError, { dest := some [1], tmp := false, owned := false, acc := [1], mdata := .old, info := .old,
                          uploadRec := true, partsGone := 0, pulled := 1, dirs := true }) := by decide
 
-/-- `sidefiles-lag:drop-after-rename` (F-fswrite-4): dropped right after the rename (position 7 with one frame):
+/-- `sidefiles-lag:drop-after-rename` (F-fswrite-4): dropped right after the rename (position 6 with one frame):
     new content, old side files -/
 theorem sidefiles_lag_drop_after_rename :
-    (dropAfter 7 (putObjectProg { frames := [.ok [1]], hasMeta := true }) (initSt (some [0]) .old .old)).dest = some [1] ∧
-    (dropAfter 7 (putObjectProg { frames := [.ok [1]], hasMeta := true }) (initSt (some [0]) .old .old)).mdata = .old ∧
-    (dropAfter 7 (putObjectProg { frames := [.ok [1]], hasMeta := true }) (initSt (some [0]) .old .old)).info = .old := by
+    (dropAfter 6 (putObjectProg { frames := [.ok [1]], hasMeta := true }) (initSt (some [0]) .old .old)).dest = some [1] ∧
+    (dropAfter 6 (putObjectProg { frames := [.ok [1]], hasMeta := true }) (initSt (some [0]) .old .old)).mdata = .old ∧
+    (dropAfter 6 (putObjectProg { frames := [.ok [1]], hasMeta := true }) (initSt (some [0]) .old .old)).info = .old := by
   decide
 
 /-! ## repaired by 0096ef4: `complete-metadata-early:*` (F-fswrite-5 … F-fswrite-9)
@@ -73,22 +92,22 @@ theorem complete_done_fails_changes_nothing :
       (initSt none .old .old)).2.tmp = false := by decide
 
 /-- was `complete-metadata-early:drop-before-rename` (F-fswrite-9): abandoned at any position before the rename (here: one
-    part, positions 0 … 6; position 3 is `tmp-leftover:drop-at-create`): previous content, previous metadata, the upload
-    record still there -/
+    part, positions 0 … 5; position 3, right after `create`, was `tmp-leftover:drop-at-create` until 2ee4116): previous
+    content, previous metadata, the upload record still there, no temporary file -/
 theorem complete_drop_before_rename_changes_nothing :
-    ∀ k ∈ [0, 1, 2, 4, 5, 6],
+    ∀ k ∈ [0, 1, 2, 3, 4, 5],
       dropAfter k (completeProg { parts := [.present [1] true], hasMeta := true }) (initSt (some [0]) .old .old) =
-        { initSt (some [0]) .old .old with acc := if k ≥ 5 then [1] else [], dirs := decide (k = 6) } := by decide
+        { initSt (some [0]) .old .old with acc := if k ≥ 4 then [1] else [], dirs := decide (k = 5) } := by decide
 
 /-- what remains after the repair is the lag of the side files behind the content, as for `put_object`: abandoned right
-    after the rename (position 7 with one part) the content is new, the metadata still the previous object's
+    after the rename (position 6 with one part) the content is new, the metadata still the previous object's
     (`sidefiles-lag:drop-after-rename`, F-fswrite-4); a failing metadata write answers an error after the content was
     replaced (`error-after-rename:sidefile-write-fails`, F-fswrite-3) — the upload record and the part files are still
     there, so the request can be repeated -/
 theorem complete_sidefiles_lag_after_rename :
-    (dropAfter 7 (completeProg { parts := [.present [1] true], hasMeta := true }) (initSt (some [0]) .old .old)).dest
+    (dropAfter 6 (completeProg { parts := [.present [1] true], hasMeta := true }) (initSt (some [0]) .old .old)).dest
       = some [1] ∧
-    (dropAfter 7 (completeProg { parts := [.present [1] true], hasMeta := true }) (initSt (some [0]) .old .old)).mdata
+    (dropAfter 6 (completeProg { parts := [.present [1] true], hasMeta := true }) (initSt (some [0]) .old .old)).mdata
       = .old ∧
     run (completeProg { parts := [.present [1] true], hasMeta := true, metaFails := true }) (initSt (some [0]) .old .old) =
       (.internalError, { initSt (some [0]) .old .old with dest := some [1], acc := [1], dirs := true }) := by decide
@@ -103,9 +122,9 @@ theorem complete_replaces_sidefiles :
 /-- before 3229285 the comparison came after `done()`: in the model, the program with `check` after `rename`
     (`error-after-rename:checksum`, F-fswrite-1, fixed) -/
 theorem old_order_replaced_before_baddigest :
-    (run [.create, .adopt, .frame (.ok [1]), .flush, .mkdirs false, .rename false, .check false]
+    (run [.create, .frame (.ok [1]), .flush, .mkdirs false, .rename false, .check false]
       (initSt (some [0]) .old .old)).1 = .badDigest ∧
-    (run [.create, .adopt, .frame (.ok [1]), .flush, .mkdirs false, .rename false, .check false]
+    (run [.create, .frame (.ok [1]), .flush, .mkdirs false, .rename false, .check false]
       (initSt (some [0]) .old .old)).2.dest = some [1] := by decide
 
 end S3V.Findings.C19
